@@ -49,6 +49,22 @@ Definition attack_lines (extra : list bytes) (text : option bytes) (lines : list
            | None, _ => lines
            end.
 
+(* positions and lengths are N: resolver parameters range over all of uint *)
+Fixpoint firstnN {X : Type} (n : N) (l : list X) : list X :=
+  match l with
+  | [] => []
+  | x :: r => if N.ltb 0 n then x :: firstnN (N.pred n) r else []
+  end.
+
+Fixpoint nthN {X : Type} (l : list X) (n : N) : option X :=
+  match l with
+  | [] => None
+  | x :: r => if N.eqb n 0 then Some x else nthN r (N.pred n)
+  end.
+
+Fixpoint lengthN {X : Type} (l : list X) : N :=
+  match l with [] => 0%N | _ :: r => N.succ (lengthN r) end.
+
 Section Spec.
   Variable A : Type.
   Variable parse : bytes -> pres A.
@@ -73,7 +89,7 @@ Section Spec.
   (* rightmost-trusted-count: the n-th entry from the right *)
   Definition spec_trusted_count (es : list (option A)) (n : N) : result A :=
     if N.eqb n 0 then Err [ECountFewer]
-    else match nth_error (rev es) (N.to_nat n - 1) with
+    else match nthN (rev es) (N.pred n) with
          | Some (Some a) => Ok a
          | Some None => Err [ECountInvalid]
          | None => Err [ECountFewer]
@@ -96,7 +112,7 @@ Section Spec.
 
   (* leftmost-non-private: the first valid non-excluded address among the first limit entries *)
   Definition spec_leftmost (es : list (option A)) (limit : N) : result A :=
-    match find untrusted_addr (firstn (N.to_nat limit) es) with
+    match find untrusted_addr (firstnN limit es) with
     | Some (Some a) => Ok a
     | _ => Err [ELeftmost]
     end.
@@ -147,7 +163,7 @@ Section Spec.
   (* where the designated entry of a rightmost strategy lies: the strategy is
      decided by the last [k] entries alone *)
   Definition designated_within_count (es : list (option A)) (n : N) : bool :=
-    negb (N.eqb n 0) && (N.to_nat n <=? List.length es)%nat.
+    negb (N.eqb n 0) && N.leb n (lengthN es).
   Definition designated_within_non_private (es : list (option A)) : bool :=
     existsb untrusted_addr es.
   Definition designated_within_range (es : list (option A)) : bool :=
